@@ -303,12 +303,20 @@ def gen_lifecycle(rng, i):
     ncomp = rng.choice([1, 2])
     ops = two_agents(rng, 0, opts, rng.choice([(1, 0), (0, 1), (1, 1)]), (("10.0.0.1",), ("10.0.1.1",)), ncomp)
     ops.append("net,%s,%s,1,%d,3" % (rng.choice([0, 0, 0.2]), rng.choice([0, 0.1]), rng.choice([1, 50])))
+    nxt = [2, 2]             # next stream id each agent will hand out
+    late_stream = None
+    if rng.random() < 0.15:
+        # a second stream that is configured (relay server) but not gathered yet while the first stream gathers: nothing may be announced for it
+        a = rng.randrange(2)
+        ops += ["server,10.9.1.1,3478,%s" % rng.choice(["ok", "oknat", "silent"]), "stream,%d,1" % a, "relay,%d,2,1,10.9.1.1,3478" % a]
+        nxt[a] = 3; late_stream = a
     ops += ["gather,0,1", "gather,1,1", "run,20"]
+    if late_stream is not None and rng.random() < 0.6:
+        ops += ["run,%d" % rng.choice([0, 100, 3000]), "gather,%d,2" % late_stream, "run,%d" % rng.choice([50, 3000])]
     if rng.random() < 0.2:
         # a forced selection that cannot succeed, on a component that is not connected yet: nothing may be announced
         ops += ["setalien,%d,1,%d,%d" % (rng.randrange(2), rng.randrange(1, ncomp + 1), rng.randrange(2)), "state,0,1,1", "state,1,1,1", "run,%d" % rng.choice([0, 30])]
     ops += signalling(rng, ncomp) + ["run,%d" % rng.choice([200, 2000, 6000])]
-    nxt = [2, 2]             # next stream id each agent will hand out
     for _ in range(rng.randrange(2, 12)):
         r = rng.random(); a = rng.randrange(2)
         if r < 0.15:
@@ -751,6 +759,15 @@ def gen_restart(rng, i):
     na, nb = rng.choice([1, 1, 2]), rng.choice([1, 1, 2])
     ips = (tuple("10.0.0.%d" % (k + 1) for k in range(na)), tuple("10.0.1.%d" % (k + 1) for k in range(nb)))
     ops = two_agents(rng, 0, opts, ctl, ips, ncomp)
+    natmap = {}
+    if rng.random() < 0.25:
+        # one side behind a 1:1 NAT: it learns LOCAL peer-reflexive candidates from the mapped addresses in the answers to its checks (and the
+        # other side remote ones) - candidates that exist only as a by-product of the session the restart is supposed to forget
+        sd = rng.randrange(2)
+        for ip in ips[sd]:
+            pub = "198.51.%s.%s" % tuple(ip.split(".")[2:])
+            natmap[ip] = pub
+            ops.append("nat,%s,%s" % (ip, pub))
     ops.append("net,%s,%s,%d,%d,%d" % (rng.choice([0, 0, 0.1, 0.3]), rng.choice([0, 0.1]), rng.choice([1, 5, 20]), rng.choice([1, 30, 120]), rng.choice([2, 3])))
     if rng.random() < 0.3:
         # a STUN server that never answers keeps every gathering run open for about 2 s: restarts then hit streams that are still gathering
@@ -790,7 +807,7 @@ def gen_restart(rng, i):
             pass
     ops += signalling(rng, ncomp) + ["run,%d" % rng.choice([8000, 15000]), "digest", "run,6000", "digest"]
     ops += ["send,0,1,1,100,3", "send,1,1,1,100,4", "run,1000"] + final_queries(ncomp)
-    return "rst%d %s" % (i, " ".join(ops)), {"kind": "restart", "ncomp": ncomp, "nrest": nrest}
+    return "rst%d %s" % (i, " ".join(ops)), {"kind": "restart", "ncomp": ncomp, "nrest": nrest, "nat": natmap}
 
 
 def oracle_restart(evs, meta):
@@ -840,11 +857,20 @@ def oracle_restart(evs, meta):
     for e in evs:
         if e.kind == "atk" and e.f[0] == "oldcheck":
             old[[w for w in e.f if w.startswith("tid=")][0]] = e
+    nat = meta.get("nat") or {}
     for e in evs:
-        if e.kind == "pkt" and "stun" in e.f and "c2" in e.f:
+        if e.kind == "pkt" and "stun" in e.f and ("c2" in e.f or "c3" in e.f):
             tid = [w for w in e.f if w.startswith("tid=")][0]
-            if tid in old and e.f[0] == old[tid].f[2]:
-                return "a check authenticated with the pre-restart password was answered with a success response (%s)" % tid
+            if tid in old:
+                vip, vport = old[tid].f[2].rsplit(":", 1)
+                if e.f[0] not in (old[tid].f[2], "%s:%s" % (nat.get(vip, vip), vport)):
+                    continue
+                if "c2" in e.f:
+                    return "a check authenticated with the pre-restart password was answered with a success response (%s)" % tid
+                if "err=400" not in e.f and "err=401" not in e.f:
+                    # any other answer (487 role conflict ...) is only built once MESSAGE-INTEGRITY has been validated: the old password was accepted
+                    return "a check authenticated with the pre-restart password passed authentication: answered %s instead of 401 (%s)" % (
+                        [w for w in e.f if w.startswith("err=")][0], tid)
     return None
 
 
@@ -1314,13 +1340,16 @@ def gen_blackhole(rng, i):
     ops = two_agents(rng, 0, opts, rng.choice([(1, 0), (0, 1)]), ips, ncomp)
     for a in (0, 1):
         ops += ["prop,%d,stun-max-retransmissions,%d" % (a, N), "prop,%d,stun-initial-timeout,%d" % (a, T)]
+    oneway = rng.random() < 0.35
     for x in ips[0]:
         for y in ips[1]:
-            ops += ["hole,%s,%s,on" % (x, y), "hole,%s,%s,on" % (y, x)]
+            # one-way variant: only A's packets are lost; B's checks arrive and trigger checks on pairs whose own check is still in progress
+            # (a second transaction on the pair; the older one is dropped at its next expiry, the newest must still get all N transmissions)
+            ops += ["hole,%s,%s,on" % (x, y)] + ([] if oneway else ["hole,%s,%s,on" % (y, x)])
     ops.append("net,0,0,1,%d,3" % rng.choice([1, 30]))
     ops += ["gather,0,1", "gather,1,1", "run,20"] + signalling(rng, ncomp, order=1)
     ops += ["run,%d" % (500 * (2 ** N) + 4000), "digest"] + final_queries(ncomp)
-    return "hole%d %s" % (i, " ".join(ops)), {"kind": "blackhole", "ncomp": ncomp, "N": N, "T": T, "reliable": bool(rel)}
+    return "hole%d %s" % (i, " ".join(ops)), {"kind": "blackhole", "ncomp": ncomp, "N": N, "T": T, "reliable": bool(rel), "oneway": oneway}
 
 
 def oracle_blackhole(evs, meta):
@@ -1333,6 +1362,22 @@ def oracle_blackhole(evs, meta):
     if not tx:
         return None
     end = max(e.t for e in evs)
+    if meta.get("oneway"):
+        # per pair, the transaction started last is the one that must run its full schedule (earlier ones may be superseded by a triggered check)
+        last = {}
+        for (src, dst, tid), ts in tx.items():
+            if (src, dst) not in last or ts[0] > last[(src, dst)][1][0]:
+                last[(src, dst)] = (tid, ts)
+        for (src, dst, tid), ts in tx.items():
+            if len(ts) > N:
+                return "connectivity check %s -> %s (%s) was transmitted %d times, stun-max-retransmissions is %d" % (src, dst, tid, len(ts), N)
+        for (src, dst), (tid, ts) in last.items():
+            if ts[0] + 500 * (2 ** N) + 500 > end:
+                continue
+            if len(ts) != N:
+                return ("the last connectivity check %s -> %s (%s) on a pair whose requests are all lost was transmitted %d times, stun-max-retransmissions is %d"
+                        % (src, dst, tid, len(ts), N))
+        return None
     for (src, dst, tid), ts in tx.items():
         # a check first sent so late that its schedule does not fit before the scenario ends is not judged
         if ts[0] + 500 * (2 ** N) + 500 > end:
